@@ -75,6 +75,12 @@ messages and `uidNext` (= `GetMailboxMessageCountAndUID`: COUNT(*) and `seq + 1`
   missing superiors are created.
 * `addTx n` — `AddMessagesToMailbox` / `MoveMessagesFromMailbox` (COPY, MOVE, connector batches):
   count and UID are read and checked inside the transaction that inserts the `n` messages.
+* `replaceTx k n` — COPY / MOVE of `n` messages of which `k` already have a copy in the destination
+  (`State.actionAddMessagesToMailbox`, `State.actionMoveMessages`): inside ONE write transaction the
+  `k` stale copies are removed first (`actionRemoveMessagesFromMailboxUnchecked`), then count and
+  UIDNEXT are read and both checks are made with the FULL `n = len(messageIDs)` (a replaced copy gets
+  a fresh UID, so it consumes a UID although it takes no additional room), then the `n` messages are
+  inserted.  A refusal is an error return of the transaction body: the removal is rolled back with it.
 * `check sid n` / `insert sid` — `Mailbox.AppendRegular`: the checks run in a read transaction
   (`stateDBRead`), the insert (`actionCreateMessage` → `CreateMessageAndAddToMailbox`) in a later
   write transaction without a check; other sessions' steps may come in between.
@@ -84,6 +90,7 @@ messages and `uidNext` (= `GetMailboxMessageCountAndUID`: COUNT(*) and `seq + 1`
 inductive Ev where
   | create (parents : Nat)
   | addTx (n : Nat)
+  | replaceTx (k : Nat) (n : Nat)
   | check (sid : Nat) (n : Nat)
   | insert (sid : Nat)
   | remove (k : Nat)
@@ -105,6 +112,10 @@ def step (l : IMAP) (w : World) : Ev → World
     if (checkMailBoxCount l w.mailboxes).isNone then { w with mailboxes := w.mailboxes + parents + 1 } else w
   | .addTx n =>
     if msgChecks l w n then { w with count := w.count + n, uidNext := w.uidNext + n } else w
+  | .replaceTx k n =>
+    if msgChecks l { w with count := w.count - k } n then
+      { w with count := w.count - k + n, uidNext := w.uidNext + n }
+    else w
   | .check sid n =>
     if msgChecks l w n then { w with passed := (sid, n) :: w.passed.filter (·.1 != sid) }
     else { w with passed := w.passed.filter (·.1 != sid) }
@@ -164,6 +175,7 @@ instance (l : IMAP) : Decidable (U32Limits l) := by unfold U32Limits; infer_inst
 def EvsInt64 : List Ev → Prop
   | [] => True
   | .addTx n :: rest => (n : Int) < 2 ^ 63 ∧ EvsInt64 rest
+  | .replaceTx _ n :: rest => (n : Int) < 2 ^ 63 ∧ EvsInt64 rest
   | .check _ n :: rest => (n : Int) < 2 ^ 63 ∧ EvsInt64 rest
   | _ :: rest => EvsInt64 rest
 
